@@ -11,6 +11,9 @@ NOTE = ("Trusted base: the Go type checker (go/types), go/packages loading of /r
 
 # id -> (technique, level text, design ref)
 CLAIMS = {
+ "C42": ("bimap row-name agreement and uniqueness (AST) + pinned CCF tag / simple-type numbers + written-vs-accepted tag set agreement + census of sort and order-enforcement sites",
+         "Structural necessary conditions: simple types are paired with their own IDs exactly once, wire numbers are pinned, every tag written is accepted and vice versa, and each sorting site of the encoder has its enforcing counterpart in the decoder.",
+         "DESIGN.md §4 C42"),
  "C35": ("complete enumeration of instruction types: Encode/Decode operand-sequence agreement, emit/decode helper byte widths, Opcode() injectivity and DecodeInstruction arm agreement (AST + go/types) + pinned opcode numbers + map-range classification + LEB128 sibling unification",
          "Structural necessary conditions, finite and exhaustively enumerated: encoder and decoder of every instruction agree on operand kinds, order and byte widths, opcodes are unique, pinned and decoded to their own instruction, and compilation has no map-order or goroutine dependence.",
          "DESIGN.md §4 C35"),
